@@ -55,6 +55,8 @@ func (g *Gen) harnessDiff(oa, ob *Occ, prop string) {
 	g.tfEq(ob)
 	g.normEq(ob)
 	ne := g.notEmitted(oa, ob, prop+"/diff/")
+	g.SchemaProp = prop
+	g.schemaCheck(ob)
 	name := "Harness_Diff_" + oa.MsgName
 	g.hs = append(g.hs, name)
 	pre := prop + "/diff/"
@@ -103,12 +105,16 @@ func (g *Gen) harnessDiff(oa, ob *Occ, prop string) {
 	vrt.CheckNoPanic(%q)
 	vrt.Assert(%q, !da2.HasError() && !db2.HasError())
 	normEq_%s(&pa, &pb, %q, %q, %q)
-%s	vrt.Reach("Diff/%s/end")
+%s	// B's schema against the oracle built from B's configuration: the option hits exactly the addressed fields
+	sb, dsb := GenSchema%s(ctx)
+	vrt.Assert(%q, !dsb.HasError())
+	schemaCheck_%s(sb.Attributes, %q)
+	vrt.Reach("Diff/%s/end")
 }
 `, name, g.TQ, oa.MsgName, oa.MsgName, oa.ID, oa.ID,
 		g.FQ, oa.MsgName, oa.MsgName, pre+oa.MsgName+"/copyto:no-panic", pre+oa.MsgName+"/copyto:no-error-diagnostic",
 		ob.ID, pre+"to/", oa.MsgName, ne, oa.MsgName,
 		oa.ID, g.TQ, oa.MsgName, g.FQ, oa.MsgName, oa.MsgName,
 		pre+oa.MsgName+"/copyfrom:no-panic", pre+oa.MsgName+"/copyfrom:no-error-diagnostic",
-		ob.ID, pre+"from/", pre+"from/", oa.MsgName, ex.String(), oa.MsgName)
+		ob.ID, pre+"from/", pre+"from/", oa.MsgName, ex.String(), oa.MsgName, pre+oa.MsgName+"/schema:no-error-diagnostic", ob.ID, oa.MsgName, oa.MsgName)
 }
